@@ -93,6 +93,11 @@ struct St {
     may_restate: bool,
     cap_before_drain: bool,
     log: Rc<RefCell<AppLog>>,
+    /// the application is going to detach the link (non-closing) and resume it once
+    expect_resume: bool,
+    owe_detach: bool,
+    owe_attach: bool,
+    resumed: bool,
 }
 
 /// Signature of the known ordering defect (DESIGN section 5, S16): the session task applies
@@ -181,8 +186,42 @@ fn absorb_frame(st: &mut St, f: &wire::WFrame) {
             }
         }
         wire::DISPOSITION => st.dispositions.push(p.clone()),
-        wire::DETACH => st.detached = Some(p.clone()),
+        wire::DETACH => {
+            if st.expect_resume && !st.resumed && !st.owe_attach && p.field(1).as_bool() != Some(true) {
+                st.owe_detach = true;
+            } else {
+                st.detached = Some(p.clone());
+            }
+        }
+        wire::ATTACH => {
+            // the link comes back
+            st.ep_handle = p.field(1).as_u32().unwrap_or(st.ep_handle);
+            st.owe_attach = true;
+        }
         _ => {}
+    }
+}
+
+/// The scripted sender's part in a detach / resume of the link: answer the detach in kind, answer
+/// the attach with its current delivery-count as the initial one (nothing is unsettled, nothing in
+/// flight: the application resumes only when its credit is used up)
+async fn answer_pending(peer: &mut Peer, st: &mut St) {
+    if st.owe_detach {
+        st.owe_detach = false;
+        peer.send(st.ps.channel, &peer::detach(st.peer_handle, false, None)).await;
+        sim::fault("link-detached-by-the-application");
+    }
+    if st.owe_attach {
+        st.owe_attach = false;
+        st.resumed = true;
+        let mut args = AttachArgs::sender("rcv", st.peer_handle);
+        args.initial_delivery_count = Some(st.dc_snd);
+        args.rcv_settle_mode = Some(if st.rcv_second { 1 } else { 0 });
+        peer.send(st.ps.channel, &peer::attach(&args)).await;
+        st.stmts.push(DcStmt { value: st.dc_snd, completed_at: st.completed });
+        // the credit of the old attachment is gone with it
+        st.grant = None;
+        sim::probe("link-resumed");
     }
 }
 
@@ -190,6 +229,7 @@ async fn absorb(peer: &mut Peer, st: &mut St, ms: u64) {
     for f in peer.drain_for(ms).await {
         absorb_frame(st, &f);
     }
+    answer_pending(peer, st).await;
 }
 
 fn available_credit(st: &St) -> u32 {
@@ -281,6 +321,10 @@ async fn quiesce(peer: &mut Peer, st: &mut St, net: &crate::net::NetHandle) -> b
             sim::violation("no-quiescence", "the endpoint kept producing traffic for the whole virtual deadline".into());
             return false;
         }
+        if st.owe_detach || st.owe_attach {
+            answer_pending(peer, st).await;
+            continue;
+        }
         if st.rcv_second && st.dispositions.iter().any(|d| !d.field(3).as_bool().unwrap_or(false)) {
             settle_second(peer, st).await;
             continue;
@@ -302,6 +346,8 @@ async fn after_delivery(
     manual_idx: &mut usize,
     since_credit: &mut u32,
     cur_credit: &mut u32,
+    resume_due: &mut bool,
+    resume_after: Option<usize>,
 ) -> bool {
     // any flow the link writes is subject to the accounting oracle, not only credit updates
     if mode != Mode::Overrun && choice(12) == 0 {
@@ -331,6 +377,12 @@ async fn after_delivery(
         world::quiesce_pair(net).await;
         *since_credit = *cur_credit;
     }
+    if *since_credit >= *cur_credit && *manual_idx < manual_credits.len() && resume_after.is_some() && Some(n) >= resume_after {
+        // the credit is used up: the moment to detach and resume (the caller does it and issues
+        // the next credit on the resumed link)
+        *resume_due = true;
+        return true;
+    }
     if *since_credit >= *cur_credit && *manual_idx < manual_credits.len() {
         *cur_credit = manual_credits[*manual_idx];
         *manual_idx += 1;
@@ -351,7 +403,7 @@ async fn after_delivery(
     true
 }
 
-fn spawn_app(mut r: Receiver, log: Rc<RefCell<AppLog>>, mode: Mode, dispose_kind: u32, batch: usize, manual_credits: Vec<u32>, drain_after: Option<usize>, net: crate::net::NetHandle) {
+fn spawn_app(mut r: Receiver, log: Rc<RefCell<AppLog>>, mode: Mode, dispose_kind: u32, batch: usize, manual_credits: Vec<u32>, drain_after: Option<usize>, net: crate::net::NetHandle, resume_after: Option<usize>) {
     sim::spawn("app-receiver", async move {
         let mut pending = Vec::new();
         let mut manual_idx = 0usize;
@@ -365,8 +417,51 @@ fn spawn_app(mut r: Receiver, log: Rc<RefCell<AppLog>>, mode: Mode, dispose_kind
             }
             manual_idx = 1;
         }
-        let disposer = r.disposer();
+        let mut disposer = r.disposer();
+        let mut resume_after = resume_after;
+        let mut resume_due = false;
         loop {
+            // detach (non-closing) and resume: when the credit is used up and everything that was
+            // received has been disposed of, so that nothing is in flight and nothing unsettled
+            if resume_due {
+                resume_due = false;
+                resume_after = None;
+                if !pending.is_empty() {
+                    let _ = r.accept_all(pending.drain(..).collect::<Vec<_>>()).await;
+                }
+                world::quiesce_pair(&net).await;
+                let detached = match sim::op("detach before resume", r.detach()).await {
+                    Some(Ok(d)) => d,
+                    Some(Err((_, e))) => {
+                        sim::violation("detach-failed", format!("{:?}", e));
+                        return;
+                    }
+                    None => return,
+                };
+                r = match sim::op("resume", detached.resume()).await {
+                    Some(Ok(fe2o3_amqp::link::receiver::ResumingReceiver::Complete(r))) => r,
+                    Some(Ok(other)) => {
+                        sim::violation("resume-incomplete", format!("nothing was unsettled; resume gave {:?}", other));
+                        return;
+                    }
+                    Some(Err(e)) => {
+                        sim::violation("resume-failed", format!("{:?}", e));
+                        return;
+                    }
+                    None => return,
+                };
+                disposer = r.disposer();
+                // the credit of the old attachment is gone with it: issue the next amount
+                if manual_idx < manual_credits.len() {
+                    cur_credit = manual_credits[manual_idx];
+                    manual_idx += 1;
+                    since_credit = 0;
+                    log.borrow_mut().credit_calls.push(cur_credit);
+                    if r.set_credit(cur_credit).await.is_err() {
+                        break;
+                    }
+                }
+            }
             let info: DeliveryInfo = match r.recv::<Body<Value>>().await {
                 Ok(d) => {
                     log.borrow_mut().received.push(Some(d.message().clone()));
@@ -380,7 +475,7 @@ fn spawn_app(mut r: Receiver, log: Rc<RefCell<AppLog>>, mode: Mode, dispose_kind
                     if mode != Mode::Overrun {
                         let _ = r.reject(e.info, None).await;
                     }
-                    if !after_delivery(&mut r, &log, mode, &manual_credits, drain_after, &net, &mut manual_idx, &mut since_credit, &mut cur_credit).await {
+                    if !after_delivery(&mut r, &log, mode, &manual_credits, drain_after, &net, &mut manual_idx, &mut since_credit, &mut cur_credit, &mut resume_due, resume_after).await {
                         break;
                     }
                     continue;
@@ -423,7 +518,7 @@ fn spawn_app(mut r: Receiver, log: Rc<RefCell<AppLog>>, mode: Mode, dispose_kind
                 }
                 _ => {}
             }
-            if !after_delivery(&mut r, &log, mode, &manual_credits, drain_after, &net, &mut manual_idx, &mut since_credit, &mut cur_credit).await {
+            if !after_delivery(&mut r, &log, mode, &manual_credits, drain_after, &net, &mut manual_idx, &mut since_credit, &mut cur_credit, &mut resume_due, resume_after).await {
                 break;
             }
         }
@@ -657,11 +752,13 @@ pub async fn run_client() {
     let (mode, credit_mode, auto_accept, rcv_second, dispose_kind, batch, manual_credits, drain_after, total, initial_dc) = draw_common();
     let settled_by_sender = choice(3) == 1;
     let bad_den = pick(&[0u32, 0, 3, 6]);
+    // (client side only) the application detaches the link and resumes it after so many deliveries
+    let resume_after: Option<usize> = if mode == Mode::Manual && drain_after.is_none() && choice(2) == 1 { Some(1 + choice(4) as usize) } else { None };
     let ccfg = EndpointCfg::default_cfg();
     let (nab, nba, nd) = world::draw_net(true);
     sim::set_config(format!(
-        "side=client mode={:?} credit={:?} auto_accept={} rcv_second={} dispose={} batch={} manual={:?} drain_after={:?} total={} initial-dc={} presettled={} undecodable=1/{} {}",
-        mode, credit_mode, auto_accept, rcv_second, dispose_kind, batch, manual_credits, drain_after, total, initial_dc, settled_by_sender, bad_den, nd
+        "side=client mode={:?} credit={:?} auto_accept={} rcv_second={} dispose={} batch={} manual={:?} drain_after={:?} total={} initial-dc={} presettled={} undecodable=1/{} resume-after={:?} {}",
+        mode, credit_mode, auto_accept, rcv_second, dispose_kind, batch, manual_credits, drain_after, total, initial_dc, settled_by_sender, bad_den, resume_after, nd
     ));
     sim::mark_nontrivial();
     let cvp = match peer::client_vs_peer(&ccfg, peer::open("peer", Some(65536), Some(255), None), nab, nba, Models::none()).await {
@@ -715,7 +812,7 @@ pub async fn run_client() {
         None => return,
     };
     let log = Rc::new(RefCell::new(AppLog::default()));
-    spawn_app(receiver, log.clone(), mode, dispose_kind, batch, manual_credits.clone(), drain_after, net.clone());
+    spawn_app(receiver, log.clone(), mode, dispose_kind, batch, manual_credits.clone(), drain_after, net.clone(), resume_after);
     let max_credit = match &credit_mode {
         CreditMode::Auto(n) => *n,
         CreditMode::Manual => *manual_credits.iter().max().unwrap(),
@@ -742,6 +839,10 @@ pub async fn run_client() {
         may_restate: choice(4) == 1,
         cap_before_drain: choice(3) != 0,
         log: log.clone(),
+        expect_resume: resume_after.is_some(),
+        owe_detach: false,
+        owe_attach: false,
+        resumed: false,
     };
     script(&mut peer, &mut st, &net, &log, mode, total, settled_by_sender, drain_after).await;
     if sim::has_violation() {
@@ -763,6 +864,7 @@ pub async fn run_listener() {
     let (mode, credit_mode, auto_accept, rcv_second, dispose_kind, batch, manual_credits, drain_after, total, initial_dc) = draw_common();
     let settled_by_sender = choice(3) == 1;
     let bad_den = pick(&[0u32, 0, 3, 6]);
+    let resume_after: Option<usize> = None;
     let lcfg = EndpointCfg::default_cfg();
     let (nab, nba, nd) = world::draw_net(true);
     sim::set_config(format!(
@@ -804,7 +906,7 @@ pub async fn run_listener() {
                         let _ = r.set_credit(n).await;
                     }
                     ready2.put(Ok(()));
-                    spawn_app(r, log2, mode, dispose_kind, batch, mc, drain_after, net2.clone());
+                    spawn_app(r, log2, mode, dispose_kind, batch, mc, drain_after, net2.clone(), None);
                 }
                 Ok(_) => ready2.put(Err("expected a receiver endpoint".into())),
                 Err(e) => ready2.put(Err(format!("link accept: {:?}", e))),
@@ -862,6 +964,10 @@ pub async fn run_listener() {
         may_restate: choice(4) == 1,
         cap_before_drain: choice(3) != 0,
         log: log.clone(),
+        expect_resume: resume_after.is_some(),
+        owe_detach: false,
+        owe_attach: false,
+        resumed: false,
     };
     // the flows the acceptor sent before the application configured the link
     for f in std::mem::take(&mut peer.skipped) {
